@@ -18,7 +18,12 @@ EXPLANATION = (
     "RenormAbundance multiplies ab[IDX_s] by the factor of the same position of zip(network.species, renorm.factor); R3 both Renorm drivers "
     "call InitRenorm, solve A r = ab_ref_ into a vector distinct from the stored reference, then RenormAbundance(r, ab); SetReferenceAbund "
     "normalises by the hydrogen entry; R4 every divisor `A` (mass number) is guarded for the species classes whose mass number is zero; R5 "
-    "Network.elements is exactly the atomic members of Network.species and both are handed to NetworkInfo from the same network.")
+    "Network.elements is exactly the atomic members of Network.species and both are handed to NetworkInfo from the same network; R2 (every "
+    "entry) InitRenorm assigns every matrix entry unconditionally, or the matrix it is handed is created zeroed by that very call of Renorm; "
+    "R7 nothing of the library that runs after the element replacement table was installed (Network, readers, template loader) drops "
+    "Species._replacement (no Species.reset(), no clearing store): the mass numbers the divisions use are looked up after replacement.  "
+    "Verdicts: a VIOLATION is raised only for a construct that was reconstructed completely and differs; a shape that is not read "
+    "(opaque helper, other arrangement of the statements) is UNRECOGNISED.")
 ASSUMPTIONS = [
     "with M_ij = sum_s c_si c_sj A_j ab_s/(A_s H) and ab'_s = ab_s sum_j c_sj A_j r_j / A_s the new element totals are H*(M r)_i: the paper argument of DESIGN C16",
     "conditioning / singularity of the matrix and finiteness for extreme abundances are not decided",
